@@ -9,7 +9,8 @@ AGGS = ["sum", "count", "min", "max", "average"]
 
 class G:
     def __init__(self, seed, p_shadow=0.0, p_window=0.15, p_join=0.15, p_append=0.08, p_group=0.2, max_expr=2,
-                 append_bare=0.0, sort_bias=0.0, safe=True):
+                 append_bare=0.0, sort_bias=0.0, safe=True, p_exclude=0.0):
+        self.p_exclude = p_exclude
         # safe: stay clear of constructs with known defects of the unchanged compiler (//, -(-x), %
         # on possibly non-integer operands, literal-only columns), see known_findings.json
         self.safe = safe
@@ -123,6 +124,11 @@ class G:
                 x = 0.5 + 0.1 * r.random()
             if not fr:
                 break
+            if self.p_exclude and len(fr) > 1 and r.random() < self.p_exclude:
+                drop = r.sample(fr, 1 if r.random() < 0.7 or len(fr) < 3 else 2)
+                steps.append(exclude(*[col(n0, q) for (n0, q) in drop]))
+                fr = [c for c in fr if c not in drop]
+                continue
             if x < 0.14:
                 k = r.randint(1, min(3, len(fr)))
                 chosen = r.sample(fr, k)
